@@ -11,23 +11,23 @@ import (
 )
 
 type FuncReport struct {
-	Func      string   `json:"func"`
-	Errors    []string `json:"errors,omitempty"`
-	Inlined   []string `json:"inlined,omitempty"`
-	Assumed   []string `json:"assumed,omitempty"`
-	NObl      int      `json:"obligations"`
-	Props     []string `json:"props,omitempty"`
-	Trusted   bool     `json:"trusted,omitempty"`
-	GenSecs   float64  `json:"gen_seconds"`
+	Func    string   `json:"func"`
+	Errors  []string `json:"errors,omitempty"`
+	Inlined []string `json:"inlined,omitempty"`
+	Assumed []string `json:"assumed,omitempty"`
+	NObl    int      `json:"obligations"`
+	Props   []string `json:"props,omitempty"`
+	Trusted bool     `json:"trusted,omitempty"`
+	GenSecs float64  `json:"gen_seconds"`
 }
 
 type Report struct {
-	Dir       string        `json:"dir"`
-	Funcs     []*FuncReport `json:"funcs"`
-	Results   []*Result     `json:"results"`
-	Errors    []string      `json:"errors,omitempty"`
-	WallS     float64       `json:"wall_s"`
-	Unused    []string      `json:"unused_contracts,omitempty"`
+	Dir     string        `json:"dir"`
+	Funcs   []*FuncReport `json:"funcs"`
+	Results []*Result     `json:"results"`
+	Errors  []string      `json:"errors,omitempty"`
+	WallS   float64       `json:"wall_s"`
+	Unused  []string      `json:"unused_contracts,omitempty"`
 }
 
 type multiFlag []string
@@ -278,7 +278,6 @@ func main() {
 	}
 }
 
-
 // effectiveProps: the properties an obligation is attributed to. Tagged clauses carry their own
 // tags; untagged obligations (safety, frame, invariants, canaries) are attributed by kind.
 func effectiveProps(o *Obligation, fprops []string, tier2 bool) []string {
@@ -286,6 +285,12 @@ func effectiveProps(o *Obligation, fprops []string, tier2 bool) []string {
 		return o.Props
 	}
 	if tier2 {
+		// glue functions of Tier 3 (compositions of the converters): everything belongs to the lemma's property
+		for pre, prop := range map[string]string{"RoundTrip_": "C04", "Echo_": "C08", "Refresh_": "C09"} {
+			if strings.HasPrefix(o.Func, pre) {
+				return []string{prop}
+			}
+		}
 		switch o.Kind {
 		case "nil-deref", "bounds", "nil-map", "type-assert", "panic", "call-pre":
 			r := []string{"C06"}
